@@ -476,7 +476,12 @@ class FileUploadHandler(UploadHandler):
             True if the path is safe, False otherwise.
         """
         try:
+            # Path.resolve() gives up at a symbolic-link loop and returns the rest of
+            # the path unresolved ("loop/../link/x" comes back as "link/x"): a path is
+            # only trusted if resolving it once more leaves it unchanged
+            if file_path.resolve() != file_path:
+                return False
             file_path.relative_to(self.upload_dir)
             return True
-        except ValueError:
+        except (ValueError, OSError, RuntimeError):
             return False
